@@ -30,13 +30,17 @@ def reset():
 
 def main():
     only = sys.argv[1:]
+    prefix = os.environ.get("SEED_PREFIX", "/tmp/seed_")   # round 2: /tmp/seed2_
+    rename = {"A": "A", "B": "B"}
+    if os.environ.get("SEED_ROUND") == "2":
+        rename = {"A": "C", "B": "D"}
     for n in range(1, 21):
         pid = f"C{n:02d}"
         for v in "AB":
-            name = f"{pid}-{v}"
+            name = f"{pid}-{rename[v]}"
             if only and not any(o in name for o in only):
                 continue
-            src = f"/tmp/seed_{pid}/out"
+            src = f"{prefix}{pid}/out"
             patch = f"{src}/{v}.patch"
             if not os.path.exists(patch):
                 print(name, "missing"); continue
